@@ -27,7 +27,7 @@ ASSUMPTIONS = [
     'non-ASCII texts are compared only for equality/case-insensitivity with '
     '1:1 case mappings',
 ]
-FLOORS = {'matrix_entries': 10000, 'type_pair_classes': 25,
+FLOORS = {'matrix_entries': 10000, 'reassigned_entries': 3000, 'type_pair_classes': 25,
           'law_instances': 5000, 'triples_checked': 5000}
 ANCHOR_FUNCS = {
     'xlcalculator/xlfunctions/operator.py': ['OP_EQ', 'OP_NE', 'OP_GT',
@@ -74,7 +74,7 @@ BASE_POOL = [
     # truth values as numpy hands them out (comparisons of numpy numbers)
     ('npbool', True), ('npbool', False),
 ]
-MODES = ['typed', 'native', 'cells', 'literals', 'calls']
+MODES = ['typed', 'native', 'cells', 'literals', 'calls', 'reassigned']
 
 
 def shards(tier):
@@ -207,6 +207,52 @@ def run(ctx):
         outs = subject.eval_batch(texts, inputs, post_set=post)
         for (mode, op, i, j), got in zip(meta, outs):
             matrix.append((mode, op, i, j, outcome_code(got)))
+        # the same pairs on ONE model and ONE Evaluator whose cells held other
+        # values first (the pair the other way round): every comparison is
+        # evaluated, the operands are re-assigned - one of the four setter
+        # routes per pair - and every comparison is evaluated again
+        from xlcalculator import Evaluator, xltypes
+        init, final, texts2, meta2 = {}, [], [], []
+        row = 0
+        for n_, (i, j) in enumerate(chunk):
+            a, b = pool[i], pool[j]
+            row += 1
+            first = (b, a) if 'blank' not in (a[0], b[0]) else (a, b)
+            for col, (kind, v), (kind0, v0) in (('A', a, first[0]),
+                                                ('B', b, first[1])):
+                addr = f'Sheet1!{col}{row}'
+                if kind == 'blank':
+                    continue
+                plain0 = not (kind0 in ('date', 'npbool', 'blank')
+                              or (kind0 == 'text' and v0 == ''))
+                init[addr] = v0 if plain0 else 0
+                final.append((addr, numpy.bool_(v) if kind == 'npbool' else v,
+                              n_ % 4))
+            for op in OPS:
+                texts2.append(f'=A{row}{op}B{row}')
+                meta2.append(('reassigned', op, i, j))
+        cells2 = dict(init)
+        probes = []
+        for k2, t in enumerate(texts2):
+            cells2[f'Sheet1!ZZ{k2 + 1}'] = t
+            probes.append(f'Sheet1!ZZ{k2 + 1}')
+        try:
+            model2 = subject.compile_dict(cells2)
+            ev2 = Evaluator(model2)
+            for pa in probes:
+                subject.outcome_of(lambda: ev2.evaluate(pa))
+            for addr, v, route in final:
+                target = addr if route < 2 else xltypes.XLCell(addr, None)
+                (ev2 if route % 2 == 0 else model2).set_cell_value(target, v)
+            outs2 = [subject.outcome_of(lambda: ev2.evaluate(pa))
+                     for pa in probes]
+        except monitors.MonitorAbort:
+            raise
+        except Exception as e:  # noqa
+            outs2 = [('raised', f'{type(e).__name__}: {e}'[:80])] * len(probes)
+        for (mode, op, i, j), got in zip(meta2, outs2):
+            matrix.append((mode, op, i, j, outcome_code(got)))
+            ctx.event('reassigned_entries')
     ctx.event('matrix_entries', len(matrix))
     ctx.data['matrix'] = matrix
     ctx.data['pool'] = [(k, repr(v)) for k, v in pool]
